@@ -19,26 +19,32 @@ def E.nonnegSyn : E → Bool
   | .add a b => a.nonnegSyn && b.nonnegSyn
   | _ => false
 
-/-- the decisions on `path` (or literal comparison) imply `x ≤ y` -/
+/-- what the decisions on a path say: `(d, strict)` means `0 < d` (strict) or `0 ≤ d` -/
+def factsOf (path : Path) : List (E × Bool) :=
+  path.filterMap fun cb =>
+    match cb with
+    | (.lt p q, true) => some (.sub q p, true)
+    | (.le q p, false) => some (.sub q p, true)
+    | (.le p q, true) => some (.sub q p, false)
+    | (.lt q p, false) => some (.sub q p, false)
+    | _ => none
+
+/-- syntactically non-negative slack: `0`, `1`, `2`, the machine epsilon, `1 + eps` -/
+def slackNonneg (d : E) : Bool :=
+  polyEq d (.lit 0 1) || polyEq d (.lit 1 1) || polyEq d (.lit 2 1) || polyEq d (.konst .eps)
+    || polyEq d (.add (.lit 1 1) (.konst .eps))
+
+/-- the decisions on `path` (or literal comparison) imply `x ≤ y`: some recorded fact `0 ≤ d` satisfies
+    `(y - x) - d = slack ≥ 0` as polynomials -/
 def pathLE (path : Path) (x y : E) : Bool :=
   (match x, y with
    | .lit n 1, .lit m 1 => decide (n ≤ m)
    | _, _ => false) ||
-  path.any fun cb =>
-    match cb with
-    | (.le x' y', true) => polyEq x x' && polyEq y y'
-    | (.lt y' x', false) => polyEq x x' && polyEq y y'
-    | (.lt x' y', true) => polyEq x x' && polyEq y y'
-    | (.le y' x', false) => polyEq x x' && polyEq y y'
-    | _ => false
+  (factsOf path).any fun f => slackNonneg (.sub (.sub y x) f.1)
 
 /-- the decisions on `path` imply `x < y` -/
 def pathLT (path : Path) (x y : E) : Bool :=
-  path.any fun cb =>
-    match cb with
-    | (.lt x' y', true) => polyEq x x' && polyEq y y'
-    | (.le y' x', false) => polyEq x x' && polyEq y y'
-    | _ => false
+  (factsOf path).any fun f => f.2 && slackNonneg (.sub (.sub y x) f.1)
 
 def nonnegOK (path : Path) (a : E) : Bool := a.nonnegSyn || pathLE path (.lit 0 1) a
 def unitOK (path : Path) (a : E) : Bool := pathLE path (.lit (-1) 1) a && pathLE path a (.lit 1 1)
